@@ -143,7 +143,9 @@ def guppy_object_from_py(
             return GuppyObject(ty, builder.load(hugr_val))
 
 
-def update_packed_value(v: Any, obj: "GuppyObject", builder: DfBase[P]) -> bool:
+def update_packed_value(
+    v: Any, obj: "GuppyObject", builder: DfBase[P], replaceable: bool = False
+) -> bool:
     """Given a Python value `v` and a `GuppyObject` `obj` that was constructed from `v`
     using `guppy_object_from_py`, tries to update the wires of any `GuppyObjects`
     contained in `v` to the new wires specified by `obj`.
@@ -151,9 +153,16 @@ def update_packed_value(v: Any, obj: "GuppyObject", builder: DfBase[P]) -> bool:
     Also resets the used flag on any of those updated wires. This corresponds to making
     the object available again since it now corresponds to a fresh wire.
 
-    Returns `True` if all wires could be updated, otherwise `False`.
+    Returns `True` if all wires could be updated, otherwise `False`. Setting
+    `replaceable` signals that `v` sits in a slot of a mutable container that the caller
+    overwrites with a fresh object if `False` is returned.
     """
     match v:
+        case GuppyObject() | tuple() if replaceable and obj._ty.copyable:
+            # Copyable objects could also be bound to other variables or be stored in
+            # other containers (for example after `xs = [a, b]`), so updating them in
+            # place would change those as well. Let the caller replace the slot instead.
+            return False
         case GuppyObject() as v_obj:
             assert v_obj._ty == obj._ty
             v_obj._wire = obj._use_wire(None)
@@ -174,7 +183,7 @@ def update_packed_value(v: Any, obj: "GuppyObject", builder: DfBase[P]) -> bool:
                 success = update_packed_value(v, GuppyObject(ty, out_wire), builder)
                 if not success:
                     return False
-        case GuppyStructObject(_ty=ty, _field_values=values):
+        case GuppyStructObject(_ty=ty, _field_values=values, _frozen=frozen):
             assert obj._ty == ty
             wire_iterator = builder.add_op(
                 ops.UnpackTuple(), obj._use_wire(None)
@@ -182,18 +191,23 @@ def update_packed_value(v: Any, obj: "GuppyObject", builder: DfBase[P]) -> bool:
             for field, out_wire in zip(ty.fields, wire_iterator, strict=True):
                 v = values[field.name]
                 field_obj = GuppyObject(field.ty, out_wire)
-                success = update_packed_value(v, field_obj, builder)
+                success = update_packed_value(v, field_obj, builder, True)
                 if not success:
-                    values[field.name] = field_obj
+                    values[field.name] = unpack_guppy_object(
+                        field_obj, builder, frozen
+                    )
         case list(vs) if len(vs) > 0:
             assert is_array_type(obj._ty)
             elem_ty = get_element_type(obj._ty)
             wires = unpack_array(builder, obj._use_wire(None))
             for i, (v, wire) in enumerate(zip(vs, wires, strict=True)):
                 elem_obj = GuppyObject(elem_ty, wire)
-                success = update_packed_value(v, elem_obj, builder)
+                success = update_packed_value(v, elem_obj, builder, True)
                 if not success:
-                    vs[i] = elem_obj
+                    # Bypasses the mutation guard of frozen lists
+                    frozen = isinstance(vs, frozenlist)
+                    new = unpack_guppy_object(elem_obj, builder, frozen)
+                    list.__setitem__(vs, i, new)
         case _:
             return False
     return True
